@@ -391,12 +391,16 @@ def c28(thorough):
         hs.append(H("VerifC28Process", TYPE=t))
     # a decoder that never returns hangs the connection's read goroutine: the long-property-section harness of C27
     hs.append(H("VerifC27LongProps", pkg="./packets", HEAD=4, TAIL=2, FILL=252, FILLN=3))
+    # a panic in a decoder is raised in the connection's read goroutine and ends the process: C27's decoder harnesses
+    # for the packets a client can send, protocol 5 (the version with properties)
+    for t in ["Connect", "Publish", "Puback", "Pubrec", "Pubrel", "Pubcomp", "Subscribe", "Unsubscribe", "Disconnect", "Auth"]:
+        hs.append(H("VerifC27" + t, pkg="./packets", N=8 if thorough else 7, VER=5))
     return hs
 C["C28"] = {
  "pkgs": [".", "./packets"],
  "technique": "bounded symbolic execution of the real connection handler on an arbitrary byte stream after a valid CONNECT (every panic site is a solver query), of processPacket for arbitrary packet values, and of the size refusal arithmetic",
  "quick": {"harnesses": c28(False), "budget_s": 600, "witnesses": 3, "perm_limit": 1,
-   "bounds": "stream: every byte string of 0..4 bytes after CONNECT (v4 and v5 clients, with/without will, clean or not), server MaximumPacketSize 24, a second well-behaved client connected throughout; process: for each of the 16 packet types a packet with symbolic QoS/DUP/retain/id/reason code and type-specific fields from small sets incl. invalid ones, on a session with symbolic in-flight record and exhausted or full receive quota, protocol 3/4/5; size test: MaximumPacketSize symbolic 4..200, 1- and 2-byte remaining lengths symbolic; termination: property sections of 258..263 bytes (4 symbolic head bytes, filler, 2 symbolic tail bytes) decoded or rejected within 200k steps"},
+   "bounds": "stream: every byte string of 0..4 bytes after CONNECT (v4 and v5 clients, with/without will, clean or not), server MaximumPacketSize 24, a second well-behaved client connected throughout; process: for each of the 16 packet types a packet with symbolic QoS/DUP/retain/id/reason code and type-specific fields from small sets incl. invalid ones, on a session with symbolic in-flight record and exhausted or full receive quota, protocol 3/4/5; size test: MaximumPacketSize symbolic 4..200, 1- and 2-byte remaining lengths symbolic; termination: property sections of 258..263 bytes (4 symbolic head bytes, filler, 2 symbolic tail bytes) decoded or rejected within 200k steps; decoders of the ten client-to-server packet types on every body of 0..7 bytes (protocol 5)"},
  "thorough": {"harnesses": c28(True), "budget_s": 3000, "witnesses": 6, "perm_limit": 1, "bounds": "as quick with streams of 0..5 bytes"},
  "outside_bounds": ["longer streams (the decoders alone are covered to 8-12 bytes by C27)", "process-level effects (memory, goroutine leaks)", "true parallelism between the two connections (cooperative scheduling; data-race freedom is C33, not decided)"],
  "stubs": SRV_STUBS + LIVE, "trusted_base": SRV_TB,
@@ -436,9 +440,9 @@ C["C34"] = {
 C["C38"] = {
  "pkgs": ["."],
  "technique": "bounded symbolic execution of solver-chosen histories through the real connection handler, request handlers and housekeeping; after every step the $SYS counters are compared with counts recomputed from the real data structures",
- "quick": {"harnesses": [H("VerifC38Counters", STEPS=3, QUEUE=1)], "budget_s": 400, "witnesses": 6, "perm_limit": 1,
-   "bounds": "one client (protocol 4/5, clean or not), every history of 3 steps among {subscribe, unsubscribe (also of a filter never held), QoS 1 delivery (retained or not), client retained publish set/clear, PUBACK, connection lost / reconnect, housekeeping at a symbolic time, burst of two messages into a queue of capacity 1}"},
- "thorough": {"harnesses": [H("VerifC38Counters", STEPS=4, QUEUE=1), H("VerifC38Counters", STEPS=3, QUEUE=4)], "budget_s": 3000, "witnesses": 12, "perm_limit": 1, "bounds": "histories of 4 steps"},
+ "quick": {"harnesses": [H("VerifC38Counters", STEPS=3, QUEUE=1), H("VerifC38Counters", STEPS=2, QUEUE=1, LIMIT=1)], "budget_s": 400, "witnesses": 6, "perm_limit": 1,
+   "bounds": "one client (protocol 4/5, clean or not), every history of 3 steps among {subscribe, unsubscribe (also of a filter never held), QoS 1 delivery (retained or not), client retained publish set/clear, PUBACK, connection lost / reconnect, housekeeping at a symbolic time, burst of two messages into a queue of capacity 1}; and histories of 2 steps with MaximumClients = 1 and connection attempts of a second client (refused, or admitted while the first is away)"},
+ "thorough": {"harnesses": [H("VerifC38Counters", STEPS=4, QUEUE=1), H("VerifC38Counters", STEPS=3, QUEUE=4), H("VerifC38Counters", STEPS=3, QUEUE=1, LIMIT=1)], "budget_s": 3000, "witnesses": 12, "perm_limit": 1, "bounds": "histories of 4 steps"},
  "outside_bounds": ["counters other than clients connected, subscriptions, retained, in-flight", "several clients"],
  "stubs": SRV_STUBS + LIVE, "trusted_base": SRV_TB,
 }
@@ -518,13 +522,25 @@ C["C36"] = {
 }
 
 # ---------------- C33 (data races) ----------------
+C33_MENUS_QUICK = [13, 3076, 67]           # bit masks over the 13 activities, see harness/root/c33.go
+C33_MENUS_THOROUGH = [13, 3076, 67, 4161]  # (sub-menus containing a housekeeping round have too many lock releases for one pre-emption)
+def c33(thorough):
+    hs = [H("VerifC33SelfTest", pkg="./mempool", RACE_HARNESS=1), H("VerifC33Pair", ACTS=2, PRE=0, SCH=1, PERM=1)]
+    if thorough:
+        for m in C33_MENUS_THOROUGH:
+            hs.append(H("VerifC33Pair", ACTS=2, PRE=1, SCH=1, PERM=1, MENU=m))
+        hs.append(H("VerifC33Pair", ACTS=3, PRE=0, SCH=1, PERM=1, MENU=1101))
+    else:
+        for m in C33_MENUS_QUICK:
+            hs.append(H("VerifC33Pair", ACTS=2, PRE=1, SCH=1, PERM=1, PREAT=1, MENU=m))
+    return hs
 C["C33"] = {
  "pkgs": [".", "./listeners", "./mempool"],
  "technique": "happens-before (vector clock) race analysis over bounded symbolic execution of concurrent scenarios: the real connection handlers, WriteLoops, housekeeping rounds and inline API calls run as interpreted goroutines; every load/store of interpreted memory is recorded, every synchronisation operation (go, Mutex/RWMutex, sync/atomic, channels, WaitGroup, Once, Pool, context) transfers clocks; scenario choice, inputs and goroutine switches are engine decisions whose feasibility the solver decides; a race is two conflicting accesses on a feasible path that no happens-before chain orders, replayed natively under the Go race detector",
- "quick": {"harnesses": [H("VerifC33SelfTest", pkg="./mempool", RACE_HARNESS=1), H("VerifC33Pair", ACTS=2, PRE=0, SCH=1, PERM=1)], "budget_s": 900, "witnesses": 2, "perm_limit": 1, "race_check": True,
-   "bounds": "control: a race planted in the harness's own code must be found (and the mutex- and channel-ordered accesses next to it must not); scenario: clients a (delayed will) and b (persistent subscriber), protocol 4/5 each, pre-state {b holds an unacknowledged message and a retained message exists} x {a offline with its delayed will pending}; then every pair of distinct activities among {a publishes QoS 1 retained, b acknowledges, b subscribes, b unsubscribes, a disconnects, a's connection is lost, takeover of b, a connects again, housekeeping round with everything expired, housekeeping round now, inline Publish, inline Subscribe+Unsubscribe, Server.Close} started together; cooperative scheduling with at most one non-default choice among runnable goroutines"},
- "thorough": {"harnesses": [H("VerifC33SelfTest", pkg="./mempool", RACE_HARNESS=1), H("VerifC33Pair", ACTS=2, PRE=1, SCH=1, PERM=1), H("VerifC33Pair", ACTS=3, PRE=0, SCH=1, PERM=1)], "budget_s": 10000, "witnesses": 2, "perm_limit": 1, "race_check": True,
-   "bounds": "as quick with one pre-emption at a synchronisation operation (pairs), and triples of activities under cooperative scheduling"},
+ "quick": {"harnesses": c33(False), "budget_s": 1200, "witnesses": 1, "perm_limit": 1, "race_check": True,
+   "bounds": "control: a race planted in the harness's own code must be found (and the mutex- and channel-ordered accesses next to it must not); scenario: clients a (delayed will) and b (persistent subscriber, also member of a share group), protocol 4/5 each, pre-state {b holds an unacknowledged message and a retained message exists} x {a offline with its delayed will pending}; (i) every pair of distinct activities among the 13 {a publishes QoS 1 retained, b acknowledges, b subscribes (plain / share group), b unsubscribes (plain / share group), a disconnects, a's connection is lost, takeover of b, a connects again, housekeeping round with everything expired, housekeeping round now, inline Publish, inline Subscribe+Unsubscribe, Server.Close} started together under cooperative scheduling with at most one non-default choice among runnable goroutines; (ii) for three sub-menus of three activities ({publish, subscribe, unsubscribe}, {subscribe, inline Publish, inline Subscribe+Unsubscribe}, {publish, acknowledge, takeover}), every pair with one pre-emption placed right after a lock release (the use-after-unlock window)"},
+ "thorough": {"harnesses": c33(True), "budget_s": 10000, "witnesses": 1, "perm_limit": 1, "race_check": True,
+   "bounds": "as quick, with the pre-emption of (ii) at any synchronisation operation and a fourth sub-menu {publish, takeover, Close}, and triples of activities from a sub-menu of five under cooperative scheduling"},
  "outside_bounds": ["a happens-before analysis sees the races of the schedules it explores: a race that needs more pre-emptions, other activities or other pre-states is not reported (bug-finding strength within the bound, not a proof of race freedom)", "accesses inside engine-stubbed code (net.Conn, bufio, time, slog, storage engines) and element accesses made through the copy/append built-ins are not recorded", "memory-model effects below sequential consistency", "listeners' accept loops (as for C36)"],
  "stubs": SRV_STUBS + LIVE, "trusted_base": SRV_TB + ["engine/race.go: vector-clock happens-before model (over-approximates ordering where unsure: it may miss a race, it does not invent one)"],
 }
